@@ -295,7 +295,7 @@ func runC05(t *core.Tape, st *core.Stats) *core.Violation {
 	}
 
 	changed := false
-	nd := t.Range(1, 6)
+	nd := t.Range(1, t.Bound(6, 16))
 
 	for d := 0; d < nd; d++ {
 		// 1. the whole message through the transport
